@@ -176,16 +176,41 @@ func fnOf(name string) seq.AggFunc {
 
 // ------------------------------------------------------------------ generators
 
-func genVal(r *vh.RNG) int {
+// valMode selects the magnitude class of generated values: 0 = |v| <= 2^30 (mixed freely), 1 / 2 = values beyond
+// the int64 range only (the sentinels of NewSamplesContainers are +-2^63): 1 = multiples of 2^63 (+-2^63, +-2^64,
+// +-2^70), 2 = exponent-style literals (+-1e19, +-3e19, +-2^63).  Inside one class every sum the code forms is an
+// exactly representable float64 (multiples of 2^63 resp. 2^19 below 2^72), so sums are still compared.
+var valMode = 0
+
+var hugeA = []float64{9223372036854775808, -9223372036854775808, 18446744073709551616, -18446744073709551616, 1180591620717411303424, -1180591620717411303424}
+var hugeB = []float64{1e19, -1e19, 3e19, -3e19, 9223372036854775808, -9223372036854775808}
+
+func genVal(r *vh.RNG) float64 {
+	switch valMode {
+	case 1:
+		return hugeA[r.Intn(len(hugeA))]
+	case 2:
+		return hugeB[r.Intn(len(hugeB))]
+	}
 	switch r.Intn(10) {
 	case 0:
-		return r.Range(-(1 << 30), 1<<30)
+		return float64(r.Range(-(1 << 30), 1<<30))
 	case 1:
 		return 0
 	default:
-		return r.Range(-20, 20)
+		return float64(r.Range(-20, 20))
 	}
 }
+
+// pickMode: mostly ordinary values, sometimes a whole case beyond the int64 range.
+func pickMode(r *vh.RNG) int {
+	if r.Chance(1, 5) {
+		return 1 + r.Intn(2)
+	}
+	return 0
+}
+
+func modeTag() string { return fmt.Sprintf("magnitude=%s", []string{"int31", "beyond-int64-pow2", "beyond-int64-exp"}[valMode]) }
 
 func genQ(r *vh.RNG) quant {
 	d := []int{1, 2, 4, 8, 16, 1024}[r.Intn(6)]
@@ -201,15 +226,15 @@ func genQ(r *vh.RNG) quant {
 // genSC returns a container and its rendering; wf containers are built through the real insert operations.
 func genSC(r *vh.RNG, wf bool, collect bool) *seq.SamplesContainer {
 	if !wf {
-		c := &seq.SamplesContainer{Min: float64(genVal(r)), Max: float64(genVal(r)), Sum: float64(genVal(r)), Total: int64(r.Intn(4)), NotExists: int64(r.Intn(3))}
+		c := &seq.SamplesContainer{Min: genVal(r), Max: genVal(r), Sum: genVal(r), Total: int64(r.Intn(4)), NotExists: int64(r.Intn(3))}
 		for i := r.Intn(4); i > 0; i-- {
-			c.Samples = append(c.Samples, float64(genVal(r)))
+			c.Samples = append(c.Samples, genVal(r))
 		}
 		return c
 	}
 	c := seq.NewSamplesContainers()
 	for i := r.Intn(5); i > 0; i-- {
-		v, cnt := float64(genVal(r)), int64(r.Range(1, 3))
+		v, cnt := genVal(r), int64(r.Range(1, 2+(1-min(valMode, 1))))
 		c.InsertNTimes(v, cnt)
 		if collect {
 			c.InsertSampleNTimes(v, cnt)
@@ -252,16 +277,16 @@ func runSCOps(ops []string, lenOnly bool) (ans string) {
 		f := strings.Split(op, ":")
 		switch f[0] {
 		case "n":
-			v, _ := strconv.Atoi(f[1])
+			v, _ := strconv.ParseFloat(f[1], 64)
 			n, _ := strconv.Atoi(f[2])
-			c.InsertNTimes(float64(v), int64(n))
+			c.InsertNTimes(v, int64(n))
 		case "s":
-			v, _ := strconv.Atoi(f[1])
-			c.InsertSample(float64(v))
+			v, _ := strconv.ParseFloat(f[1], 64)
+			c.InsertSample(v)
 		case "t":
-			v, _ := strconv.Atoi(f[1])
+			v, _ := strconv.ParseFloat(f[1], 64)
 			n, _ := strconv.Atoi(f[2])
-			c.InsertSampleNTimes(float64(v), int64(n))
+			c.InsertSampleNTimes(v, int64(n))
 		case "m":
 			c.Merge(parseSC(f[1]))
 		case "q":
@@ -323,16 +348,34 @@ func scOpsChannel(o vh.Opts, rng *vh.RNG) *vh.Channel {
 	}
 	rec(nil)
 	// random sequences
-	for i := o.Pick(400, 4000); i > 0; i-- {
+	// small scope beyond the int64 range: the empty container's Min/Max sentinels are +-2^63, not +-Inf
+	alphaHuge := []string{"n:10000000000000000000:1", "n:-30000000000000000000:2", "n:9223372036854775808:1", "s:10000000000000000000",
+		"m:10000000000000000000/30000000000000000000/40000000000000000000/2/0/-", "m:-30000000000000000000/-10000000000000000000/-40000000000000000000/2/1/-30000000000000000000,-10000000000000000000",
+		"m:5/5/9/0/2/-", "q:0:1", "q:1:1", "q:1:2"}
+	var recH func(prefix []string)
+	recH = func(prefix []string) {
+		if len(prefix) > 0 {
+			add(append([]string(nil), prefix...), 0, "scope=exhaustive-beyond-int64", fmt.Sprintf("len=%d", len(prefix)))
+		}
+		if len(prefix) == 3 {
+			return
+		}
+		for _, a := range alphaHuge {
+			recH(append(prefix, a))
+		}
+	}
+	recH(nil)
+	for i := o.Pick(500, 5000); i > 0; i-- {
+		valMode = pickMode(rng)
 		var ops []string
-		for k := r1(rng, 1, 10); k > 0; k-- {
+		for k := r1(rng, 1, 10-4*min(valMode, 1)); k > 0; k-- {
 			switch rng.Intn(6) {
 			case 0:
-				ops = append(ops, fmt.Sprintf("n:%d:%d", genVal(rng), rng.Range(0, 5)))
+				ops = append(ops, fmt.Sprintf("n:%s:%d", fnum(genVal(rng)), rng.Range(0, 5-3*min(valMode, 1))))
 			case 1:
-				ops = append(ops, fmt.Sprintf("s:%d", genVal(rng)))
+				ops = append(ops, fmt.Sprintf("s:%s", fnum(genVal(rng))))
 			case 2:
-				ops = append(ops, fmt.Sprintf("t:%d:%d", genVal(rng), rng.Range(0, 4)))
+				ops = append(ops, fmt.Sprintf("t:%s:%d", fnum(genVal(rng)), rng.Range(0, 4)))
 			case 3:
 				c := genSC(rng, rng.Chance(2, 3), rng.Bool())
 				ops = append(ops, "m:"+fmtSC(c, false))
@@ -341,7 +384,8 @@ func scOpsChannel(o vh.Opts, rng *vh.RNG) *vh.Channel {
 				ops = append(ops, fmt.Sprintf("q:%d:%d", q.n, q.d))
 			}
 		}
-		add(ops, 0, "scope=random")
+		add(ops, 0, "scope=random", modeTag())
+		valMode = 0
 	}
 	// the reservoir limit: exactly at it (full comparison) and just above (only the number of samples)
 	for _, extra := range []int{-2, -1, 0, 1, 2, 40} {
@@ -441,11 +485,20 @@ func asTreeChannel(o vh.Opts, rng *vh.RNG, rep *vh.Report) (*vh.Channel, *vh.Ora
 		wf := rng.Chance(3, 4)
 		collect := rng.Bool()
 		k := rng.Range(1, 5)
+		valMode = pickMode(rng)
+		if valMode != 0 {
+			wf = true
+		}
+		mtag := modeTag()
 		leaves := make([]leafSpec, k)
 		for j := range leaves {
 			leaves[j] = genLeaf(rng, wf, collect)
 		}
 		fn := fnNames[rng.Intn(len(fnNames))]
+		if valMode != 0 && fn == "avg" { // the float quotient of huge sums is rounded: not compared
+			fn = "min"
+		}
+		valMode = 0
 		var qs []quant
 		if fn == "quantile" || rng.Chance(1, 10) {
 			for j := rng.Range(0, 3); j > 0; j-- {
@@ -481,12 +534,12 @@ func asTreeChannel(o vh.Opts, rng *vh.RNG, rep *vh.Report) (*vh.Channel, *vh.Ora
 			}
 		}
 		req := fmt.Sprintf("as.tree %s %s %s %s %s", fn, fmtQs(qs), vh.B(skip), strings.Join(toks, ","), strings.Join(ls, " "))
-		ch.Add(req, impl, nt, "fn="+fn, fmt.Sprintf("leaves=%d", k), "wf="+vh.B(wf), "skip="+vh.B(skip))
+		ch.Add(req, impl, nt, "fn="+fn, fmt.Sprintf("leaves=%d", k), "wf="+vh.B(wf), "skip="+vh.B(skip), mtag)
 		if wf {
 			toks2 := genRPN(rng, k)
 			m2 := evalRPN(toks2, leaves)
 			res2 := aggregateStr(m2, fn, qs, skip)
-			orc.Case(req+" || "+strings.Join(toks2, ","), nt && k >= 3, "fn="+fn)
+			orc.Case(req+" || "+strings.Join(toks2, ","), nt && k >= 3, "fn="+fn, mtag)
 			if res2 != res {
 				rep.Violate(vh.Violation{Site: "seq/qpr.go:AggregatableSamples.Merge", Class: "merge-order-dependent",
 					What:   fmt.Sprintf("tree %s gives %s, tree %s gives %s", strings.Join(toks, ","), res, strings.Join(toks2, ","), res2),
@@ -811,6 +864,19 @@ func parseDocs(s string) []doc {
 
 var groupVals = []string{"ga", "gb", "gc", "_not_exists"}
 
+// field tokens beyond the int64 range (exponent notation as a log shipper would write them); all parse to exactly
+// representable floats that are multiples of 2^19 below 2^66, so that sums over a corpus stay exact
+var hugeTokens = []string{"1e19", "-1e19", "3e19", "-3e19", "9223372036854775808", "-9.223372036854775808e18", "18446744073709551616", "1.0E19"}
+
+// tokVal parses a field token the way the aggregators do (strconv.ParseFloat); ok=false for an unparsable token.
+func tokVal(tok string) (float64, bool) {
+	v, err := strconv.ParseFloat(tok, 64)
+	if err != nil || math.IsNaN(v) || math.IsInf(v, 0) {
+		return 0, false
+	}
+	return v, true
+}
+
 func genDocs(r *vh.RNG, n int, multi bool, bad bool) []doc {
 	docs := make([]doc, n)
 	mid := uint64(r.Range(30, 120))
@@ -830,11 +896,18 @@ func genDocs(r *vh.RNG, n int, multi bool, bad bool) []doc {
 		}
 		if r.Chance(3, 4) {
 			d.f = []string{strconv.Itoa([]int{-7, -1, 0, 3, 3, 5, 12, 1 << 20}[r.Intn(8)] + r.Intn(2))}
+			if valMode != 0 {
+				d.f = []string{hugeTokens[r.Intn(len(hugeTokens))]}
+			}
 			if bad && r.Chance(1, 6) {
 				d.f = []string{"x"}
 			}
 			if multi && r.Chance(1, 4) {
-				d.f = append(d.f, "99")
+				if valMode != 0 {
+					d.f = append(d.f, "2e19")
+				} else {
+					d.f = append(d.f, "99")
+				}
 			}
 		}
 		docs[i] = d
@@ -868,7 +941,15 @@ func modelAggRequest(ix *fakeIndex, a aggq, order seq.DocsOrder) string {
 		var ps, vs []string
 		for _, tid := range ix.fields[field] {
 			ps = append(ps, vh.JoinInts(ix.postings[tid]))
-			vs = append(vs, ix.tokens[tid])
+			tok := ix.tokens[tid]
+			if field == "f" { // the model's `fval` is the parsed value: exact decimal expansion, or x
+				if v, ok := tokVal(tok); ok && v == math.Trunc(v) {
+					tok = fnum(v)
+				} else {
+					tok = "x"
+				}
+			}
+			vs = append(vs, tok)
 		}
 		return vh.JoinStrs(ps, "/"), vh.JoinStrs(vs, ",")
 	}
@@ -906,7 +987,10 @@ func aggIndexChannel(o vh.Opts, rng *vh.RNG) (*vh.Channel, *vh.Channel) {
 	for i := 0; i < n; i++ {
 		multi := rng.Chance(1, 5)
 		bad := rng.Chance(1, 6)
+		valMode = pickMode(rng)
+		mtag := modeTag()
 		docs := genDocs(rng, rng.Range(0, o.Pick(10, 24)), multi, bad)
+		valMode = 0
 		ix := buildIndex(docs)
 		aggs := genAggs(rng)
 		order := seq.DocsOrder(rng.Intn(2))
@@ -950,7 +1034,7 @@ func aggIndexChannel(o vh.Opts, rng *vh.RNG) (*vh.Channel, *vh.Channel) {
 		}
 		for j, a := range aggs {
 			ch.Add(modelAggRequest(ix, a, order), "ok "+fmtASx(&qpr.Aggs[j], false, true), nmatch >= 2, "fn="+a.fn, "outcome=ok",
-				"multi="+vh.B(multi), "group="+vh.B(a.group), fmt.Sprintf("timeseries=%s", vh.B(a.interval > 0)), "rev="+vh.B(order.IsReverse()))
+				"multi="+vh.B(multi), "group="+vh.B(a.group), fmt.Sprintf("timeseries=%s", vh.B(a.interval > 0)), "rev="+vh.B(order.IsReverse()), mtag)
 		}
 	}
 	return ch, hch
@@ -959,14 +1043,16 @@ func aggIndexChannel(o vh.Opts, rng *vh.RNG) (*vh.Channel, *vh.Channel) {
 // ------------------------------------------------------------------ oracle agg.direct
 
 type binStat struct {
-	vals      []int
+	vals      []float64
 	notExists int64
 	present   bool
 }
 
 // expected computes, directly from the documents, what every bin of an aggregation has to hold
 // (single-valued group / field tokens).
-func expected(fracs [][]doc, a aggq) (map[seq.AggBin]*binStat, int64) {
+// asFound = true reproduces two behaviours of the code as found that the property does not allow (used only to
+// classify a violation): group-without-field documents tallied in the bin without time.
+func expected(fracs [][]doc, a aggq, asFound bool) (map[seq.AggBin]*binStat, int64) {
 	res := map[seq.AggBin]*binStat{}
 	get := func(k seq.AggBin) *binStat {
 		if res[k] == nil {
@@ -990,11 +1076,14 @@ func expected(fracs [][]doc, a aggq) (map[seq.AggBin]*binStat, int64) {
 			case a.fn == "count":
 				if len(d.g) == 0 {
 					ne++
-					// legacy format (aggregator.go): the not-exists count is also delivered as a bucket `_not_exists` without time bin
-					b := get(seq.AggBin{Token: "_not_exists"})
-					b.vals = append(b.vals, 1)
+					// legacy format (aggregator.go): the not-exists count is also delivered as a bucket `_not_exists` without
+					// time bin - unless a real group token of that name owns the bucket
+					if !realNotExistsToken(fracs) {
+						b := get(seq.AggBin{Token: "_not_exists"})
+						b.vals = append(b.vals, 1)
+					}
 				} else {
-					get(seq.AggBin{MID: bin(d.mid), Token: d.g[0]}).vals = append(get(seq.AggBin{MID: bin(d.mid), Token: d.g[0]}).vals, 1)
+					get(seq.AggBin{MID: bin(d.mid), Token: d.g[0]}).vals = append(get(seq.AggBin{MID: bin(d.mid), Token: d.g[0]}).vals, 1.0)
 				}
 			case a.fn == "unique":
 				if len(d.g) == 0 {
@@ -1007,18 +1096,22 @@ func expected(fracs [][]doc, a aggq) (map[seq.AggBin]*binStat, int64) {
 				if len(d.f) == 0 {
 					b.notExists++
 				} else {
-					v, _ := strconv.Atoi(d.f[0])
+					v, _ := tokVal(d.f[0])
 					b.vals = append(b.vals, v)
 				}
 			default:
 				switch {
 				case len(d.g) == 0 && len(d.f) == 0:
 				case len(d.f) == 0:
-					get(seq.AggBin{Token: d.g[0]}).notExists++
+					if asFound {
+						get(seq.AggBin{Token: d.g[0]}).notExists++
+					} else { // the document belongs to its own time bin, like every other tally
+						get(seq.AggBin{MID: bin(d.mid), Token: d.g[0]}).notExists++
+					}
 				case len(d.g) == 0:
 					ne++
 				default:
-					v, _ := strconv.Atoi(d.f[0])
+					v, _ := tokVal(d.f[0])
 					b := get(seq.AggBin{MID: bin(d.mid), Token: d.g[0]})
 					b.vals = append(b.vals, v)
 				}
@@ -1028,9 +1121,38 @@ func expected(fracs [][]doc, a aggq) (map[seq.AggBin]*binStat, int64) {
 	return res, ne
 }
 
+func realNotExistsToken(fracs [][]doc) bool {
+	for _, f := range fracs {
+		for _, d := range f {
+			if d.match && len(d.g) > 0 && d.g[0] == "_not_exists" {
+				return true
+			}
+		}
+	}
+	return false
+}
+
+// classify names the input class of a value violation (signature.class of known findings).
+func classify(fracs [][]doc, a aggq, skip bool, got, want string) (string, string) {
+	site, class := "frac/processor/eval_tree.go:evalAgg", "agg-value-differs-from-documents"
+	switch {
+	case a.fn == "quantile" && !haveInner(a.qs) && strings.Contains(got, "nan") && !strings.Contains(want, "nan"):
+		class = "quantile-0-1-only-returns-nan"
+	case a.fn == "count" && realNotExistsToken(fracs):
+		site, class = "frac/processor/aggregator.go:SingleSourceCountAggregator.Aggregate", "legacy-not-exists-bin-collides-with-token"
+	case got == expectedBucketsX(fracs, a, skip, true):
+		site, class = "frac/processor/aggregator.go:TwoSourceAggregator.Next", "group-not-exists-dropped-in-timeseries"
+	}
+	return site, class
+}
+
 // expectedBuckets renders the Aggregate output the property demands, in the order sortBuckets documents.
 func expectedBuckets(fracs [][]doc, a aggq, skip bool) string {
-	stats, ne := expected(fracs, a)
+	return expectedBucketsX(fracs, a, skip, false)
+}
+
+func expectedBucketsX(fracs [][]doc, a aggq, skip bool, asFound bool) string {
+	stats, ne := expected(fracs, a, asFound)
 	type bk struct {
 		mid   uint64
 		name  string
@@ -1045,9 +1167,9 @@ func expectedBuckets(fracs [][]doc, a aggq, skip bool) string {
 			continue
 		}
 		b := bk{mid: uint64(k.MID), name: k.Token, ne: s.notExists}
-		sorted := append([]int(nil), s.vals...)
-		sort.Ints(sorted)
-		sum := 0
+		sorted := append([]float64(nil), s.vals...)
+		sort.Float64s(sorted)
+		sum := 0.0
 		for _, v := range sorted {
 			sum += v
 		}
@@ -1067,13 +1189,13 @@ func expectedBuckets(fracs [][]doc, a aggq, skip bool) string {
 			}
 			switch a.fn {
 			case "sum":
-				b.value, b.vstr = float64(sum), strconv.Itoa(sum)
+				b.value, b.vstr = sum, fnum(sum)
 			case "min":
-				b.value, b.vstr = float64(sorted[0]), strconv.Itoa(sorted[0])
+				b.value, b.vstr = sorted[0], fnum(sorted[0])
 			case "max":
-				b.value, b.vstr = float64(sorted[n-1]), strconv.Itoa(sorted[n-1])
+				b.value, b.vstr = sorted[n-1], fnum(sorted[n-1])
 			case "avg":
-				b.value = float64(sum) / float64(n)
+				b.value = sum / float64(n)
 				g := gcd(int64(sum), int64(n))
 				if int64(n)/g == 1 {
 					b.vstr = strconv.FormatInt(int64(sum)/g, 10)
@@ -1083,9 +1205,9 @@ func expectedBuckets(fracs [][]doc, a aggq, skip bool) string {
 			case "quantile":
 				for _, q := range a.qs {
 					idx := ((n-1)*q.n*2 + q.d) / (2 * q.d)
-					b.qs = append(b.qs, strconv.Itoa(sorted[idx]))
+					b.qs = append(b.qs, fnum(sorted[idx]))
 				}
-				b.value, b.vstr = float64(sorted[((n-1)*a.qs[0].n*2+a.qs[0].d)/(2*a.qs[0].d)]), b.qs[0]
+				b.value, b.vstr = sorted[((n-1)*a.qs[0].n*2+a.qs[0].d)/(2*a.qs[0].d)], b.qs[0]
 			}
 		}
 		bs = append(bs, b)
@@ -1137,6 +1259,7 @@ func expectedBuckets(fracs [][]doc, a aggq, skip bool) string {
 }
 
 type sysCase struct {
+	huge  bool
 	fracs [][]doc
 	agg   aggq
 	hist  uint64
@@ -1203,13 +1326,10 @@ func runSys(c sysCase, rep *vh.Report, orc *vh.Oracle) {
 			}
 		}
 	}
-	orc.Case(c.String(), nmatch >= 3 && len(c.fracs) >= 2, "fn="+c.agg.fn, fmt.Sprintf("fracs=%d", len(c.fracs)), "group="+vh.B(c.agg.group), "timeseries="+vh.B(c.agg.interval > 0))
+	orc.Case(c.String(), nmatch >= 3 && len(c.fracs) >= 2, "beyond-int64="+vh.B(c.huge), "fn="+c.agg.fn, fmt.Sprintf("fracs=%d", len(c.fracs)), "group="+vh.B(c.agg.group), "timeseries="+vh.B(c.agg.interval > 0))
 	if got != want {
-		class := "agg-value-differs-from-documents"
-		if c.agg.fn == "quantile" && !haveInner(c.agg.qs) {
-			class = "quantile-0-1-only-returns-nan"
-		}
-		rep.Violate(vh.Violation{Site: "frac/processor/eval_tree.go:evalAgg", Class: class,
+		site, class := classify(c.fracs, c.agg, skip, got, want)
+		rep.Violate(vh.Violation{Site: site, Class: class,
 			What: fmt.Sprintf("%s: got %s want %s", c.agg.String(), got, want), Replay: []string{c.String()}})
 	}
 	if c.hist > 0 && fmtHist(dst.Histogram) != fmtHist(wantHist) {
@@ -1230,6 +1350,8 @@ func haveInner(qs []quant) bool {
 func genSys(r *vh.RNG, maxDocs int) sysCase {
 	c := sysCase{order: seq.DocsOrder(r.Intn(2)), hist: uint64([]int{0, 1, 10, 25}[r.Intn(4)])}
 	k := r.Range(1, 4)
+	valMode = pickMode(r)
+	defer func() { valMode = 0 }()
 	for i := 0; i < k; i++ {
 		docs := genDocs(r, r.Range(0, maxDocs), false, false)
 		for j := range docs { // the legacy `_not_exists` bin collides with a real token of that name (recorded assumption)
@@ -1241,6 +1363,10 @@ func genSys(r *vh.RNG, maxDocs int) sysCase {
 	}
 	c.perm = r.Perm(k)
 	c.agg = genAggs(r)[0]
+	if valMode != 0 && c.agg.fn == "avg" { // the float quotient of sums beyond 2^53 is rounded: not compared
+		c.agg.fn = "min"
+	}
+	c.huge = valMode != 0
 	return c
 }
 
@@ -1354,11 +1480,8 @@ func e2eEnv(rep *vh.Report, orc *vh.Oracle, shards int, batches [][]doc, sealAft
 		// expectations are computed on the offsets and shifted: bins are aligned to the base minute
 		want := expectedBuckets([][]doc{all}, a, skip)
 		if got != want {
-			class := "agg-value-differs-from-documents"
-			if a.fn == "quantile" && !haveInner(a.qs) {
-				class = "quantile-0-1-only-returns-nan"
-			}
-			rep.Violate(vh.Violation{Site: "frac/processor/eval_tree.go:evalAgg", Class: class,
+			site, class := classify([][]doc{all}, a, skip, got, want)
+			rep.Violate(vh.Violation{Site: site, Class: class,
 				What: fmt.Sprintf("end to end %s: got %s want %s", a.String(), shiftMids(got, base), shiftMids(want, base)), Replay: []string{key}})
 		}
 		if q.hist > 0 {
@@ -1415,6 +1538,8 @@ func e2eChild(o vh.Opts) {
 		nb := rng.Range(1, 4)
 		var batches [][]doc
 		var sealAfter []bool
+		valMode = pickMode(rng)
+		huge := valMode != 0
 		for b := 0; b < nb; b++ {
 			docs := genDocs(rng, rng.Range(1, o.Pick(10, 40)), false, false)
 			for i := range docs {
@@ -1426,9 +1551,13 @@ func e2eChild(o vh.Opts) {
 			batches = append(batches, docs)
 			sealAfter = append(sealAfter, b+1 < nb && rng.Bool())
 		}
+		valMode = 0
 		var qs []e2eQ
 		for q := 0; q < o.Pick(12, 40); q++ {
 			a := genAggs(rng)[0]
+			if huge && a.fn == "avg" {
+				a.fn = "max"
+			}
 			if a.interval > 0 {
 				a.interval = int64([]int{1000, 2500, 15000}[rng.Intn(3)])
 			} else {
@@ -1639,6 +1768,19 @@ func main() {
 	}
 	if want("agg.direct") {
 		r := rng.Fork()
+		// directed witnesses of the three questions recorded while reading the aggregators
+		for _, w := range []string{
+			// a real group token named like the legacy bucket, one document without the group
+			"sys count/g1/i0/q- hist=0 order=0 perm=0 fracs=50:1:_not_exists:-,40:1:_not_exists:-,30:1:-:-",
+			// group + field + time interval: a document of group ga without the field
+			"sys sum/g1/i10/q- hist=0 order=0 perm=0 fracs=57:1:ga:5,42:1:ga:-",
+			// count + time interval: the not-exists total is reported (not per time bin: the response has no place for it)
+			"sys count/g1/i10/q- hist=0 order=0 perm=0 fracs=57:1:ga:-,42:1:-:-",
+		} {
+			if c, ok := parseSys(w); ok {
+				runSys(c, rep, sys)
+			}
+		}
 		for i := o.Pick(1500, 100000); i > 0; i-- {
 			runSys(genSys(r, o.Pick(8, 16)), rep, sys)
 		}
